@@ -253,6 +253,10 @@ impl TlsListener {
                 break;
             }
             all.extend_from_slice(&tmp[..n]);
+            // a replay that never ends is reported as what was read so far, not by running out of memory
+            if all.len() > (4 << 20) {
+                break;
+            }
         }
         Ok((random, prebuffer_len, all))
     }
